@@ -107,3 +107,28 @@ CORPUS_F23 = [
 ]
 
 CORPUS += CORPUS_F23      # repaired by fix: commit b310bc9 (the PyMTL simulation raises: only the text is checked)
+
+# directed shapes (clean): instance constants derived from constructor parameters read through attributes and constant
+# subscripts by two instances of one class; a list of struct ports whose struct has list fields of another length
+CORPUS += [
+  {'label': 'corpus:two-instances-instance-constants', 'backends': ('verilog', 'yosys'), 'features': ['corpus'],
+   'src': 'from pymtl3 import *\n'
+          'MODK = 3\n'
+          'class Clamp( Component ):\n  def construct( s, limit, step ):\n    s.in_ = InPort( Bits8 )\n    s.out = OutPort( Bits8 )\n'
+          '    s.r = Wire( Bits8 )\n    s.LIMIT = limit\n    s.STEP = Bits8( step )\n    s.TABLE = [ Bits8( limit + 1 ), Bits8( step * 2 ) ]\n'
+          '    @update\n    def cb():\n      if s.in_ > s.LIMIT:\n        s.out @= s.r + s.TABLE[1]\n      else:\n        s.out @= ( s.in_ + s.STEP ) ^ s.TABLE[0]\n'
+          '    @update_ff\n    def fb():\n      s.r <<= s.r + s.STEP + MODK\n\n'
+          'class Top( Component ):\n  def construct( s ):\n    s.a = InPort( Bits8 )\n    s.o = [ OutPort( Bits8 ) for _ in range(3) ]\n'
+          '    s.c0 = Clamp( 20, 3 )\n    s.c1 = Clamp( 200, 17 )\n    s.cs = [ Clamp( 7, 1 ), Clamp( 99, 5 ) ]\n'
+          '    s.c0.in_ //= s.a\n    s.c1.in_ //= s.a\n    s.cs[0].in_ //= s.a\n    s.cs[1].in_ //= s.c0.out\n'
+          '    s.o[0] //= s.c0.out\n    s.o[1] //= s.c1.out\n'
+          '    @update\n    def up():\n      s.o[2] @= s.cs[0].out ^ s.cs[1].out\n'},
+  {'label': 'corpus:struct-port-list-with-list-fields', 'backends': ('verilog', 'yosys'), 'features': ['corpus'],
+   'src': 'from pymtl3 import *\n'
+          '@bitstruct\nclass In2:\n  x: Bits3\n  y: Bits2\n\n'
+          '@bitstruct\nclass Pk:\n  tag: Bits2\n  ch: [Bits2]*3\n  sub: [In2]*3\n  grid: [[Bits2]*3]*2\n\n'
+          'class Top( Component ):\n  def construct( s ):\n    s.in_ = [ InPort( Pk ) for _ in range(2) ]\n    s.sel = InPort( Bits1 )\n'
+          '    s.o = [ OutPort( Bits2 ) for _ in range(6) ]\n    s.x = OutPort( Bits3 )\n    s.g = OutPort( Bits2 )\n    s.pk = OutPort( Bits35 )\n'
+          '    @update\n    def up():\n      for p in range(2):\n        for e in range(3):\n          s.o[p*3+e] @= s.in_[p].ch[e] ^ s.in_[p].tag\n'
+          '      s.x @= s.in_[1].sub[2].x + s.in_[s.sel].sub[0].x\n      s.g @= s.in_[1].grid[1][2] ^ s.in_[0].grid[0][1]\n      s.pk @= s.in_[1]\n'},
+]
